@@ -68,3 +68,34 @@ def _scalar_methods(i, v, name, node, fr):
     if isinstance(v, (int, float)) and name == "item":
         return BoundMethod(v, lambda interp, s, a, k, n, f: s)
     return NotImplemented
+
+
+class ModuleV:
+    """a module object obtained from importlib.import_module(<literal name>)"""
+
+    def __init__(self, name):
+        self.name = name
+
+
+from . import model as _model  # noqa
+
+
+@_model("importlib.import_module", "import_module(name) for a literal dotted name: the module; getattr(module, cls) is that class")
+def _import_module(i, args, kw, node, fr):
+    if not isinstance(args[0], str):
+        raise Unsupported("importlib.import_module of a symbolic name", node)
+    return ModuleV(args[0])
+
+
+@hook("getattr")
+def _module_attr(i, v, name, node, fr):
+    if isinstance(v, ModuleV):
+        return i.ctx.classref(v.name + "." + name)
+    return NotImplemented
+
+
+@_model("getattr", "getattr(obj, <literal name>) = obj.<name>", builtin=True)
+def _getattr_builtin(i, args, kw, node, fr):
+    if len(args) != 2 or not isinstance(args[1], str):
+        raise Unsupported("getattr with a symbolic name or a default", node)
+    return i.getattr(args[0], args[1], node, fr)
